@@ -432,3 +432,8 @@ def run(ctx, rep):
     rep.clause("C01.6 a group record saved after the metadata sync was re-read after it (the committer's stored state is the synced one on every apply route)")
     import c08
     c08.clause_no_stale_overwrite(prog, rep, c08.sync_fns(prog))
+    # the incumbent a late commit is compared with is the entry is_better_candidate finds first: a placeholder queued ahead of the real
+    # entry (hydration run after the method's own write) answers "not better" for good (shared with C11)
+    rep.clause("C01.7 manager methods hydrate before they write (no placeholder entry ahead of the real incumbent)")
+    import c11
+    c11.clause_hydrate_first(prog, rep)
